@@ -109,6 +109,15 @@ def gen_spec(rng, solver, df, pen, seed, coords):
         spec["pen_opts"] = dict(gamma=float(rng.choice([40.0, 100.0])))
     if pen == "WeightedMCPenalty":
         spec["pen_opts"]["weights"] = None
+    if icpt and rng.random() < 0.3:
+        # a warm start whose intercept is far from optimal (Newton steps on it overshoot; the line search has to act)
+        spec["intercept_start"] = float(rng.choice([-8.0, -6.0, 6.0, 8.0]))
+    if solver in ("ProxNewton", "GroupProxNewton") and isinstance(coords[-1], int) and coords[-1] % 3 == 0 \
+            and info["intercept"] and df not in ("QuadraticSVC", "Cox"):
+        # ... and in rotation for the prox-Newton solvers, on both containers, so that the quick tier meets it
+        spec.update(fit_intercept=True, warm="dense", intercept_start=[-8.0, 8.0, -6.0, 6.0][(coords[-1] // 3) % 4])
+        if info["sparse"] and K.compatible(solver, df, pen, "csc", True, spec["strategy"]):
+            spec["storage"] = "csc" if (coords[-1] // 3) % 2 == 0 else "dense"
     return K.widen(rng, spec, prob=0.1, n_range=(40, 100), p_range=(60, 250))
 
 
@@ -194,11 +203,13 @@ def run_case(emit, cid, cs, rng, sample=False):
             viols.append(_viol(case, "objective-increases-with-budget",
                                "F %r -> %r between %s and (t=%d, epoch=%d)" % (prevF, Fw, prev, p["t"], p["epoch"]),
                                increase=(Fw - prevF) if np.isfinite(Fw) and np.isfinite(prevF) else None,
+                               increase_rel=(Fw - prevF) / (1 + abs(F0)) if np.isfinite(Fw) and np.isfinite(prevF) else None,
                                infeasible=bool(Fw == np.inf), at_epoch=int(p["epoch"])))
         if not R.leq(Fw, F0, rel=rel):
             viols.append(_viol(case, "objective-above-start", "F(start)=%r F(t=%d,epoch=%d)=%r" % (
                 F0, p["t"], p["epoch"], Fw), infeasible=bool(Fw == np.inf), at_epoch=int(p["epoch"]),
-                increase=(Fw - F0) if np.isfinite(Fw) and np.isfinite(F0) else None))
+                increase=(Fw - F0) if np.isfinite(Fw) and np.isfinite(F0) else None,
+                increase_rel=(Fw - F0) / (1 + abs(F0)) if np.isfinite(Fw) and np.isfinite(F0) else None))
         if not np.array_equal(p["w"], w0):
             changed = True
         prevF, prev = Fw, ("stop", p["t"], p["epoch"])
@@ -206,7 +217,8 @@ def run_case(emit, cid, cs, rng, sample=False):
     if not R.leq(Fret, F0, rel=rel):
         viols.append(_viol(case, "objective-above-start", "F(start)=%r F(returned)=%r" % (F0, Fret),
                            infeasible=bool(Fret == np.inf),
-                           increase=(Fret - F0) if np.isfinite(Fret) and np.isfinite(F0) else None))
+                           increase=(Fret - F0) if np.isfinite(Fret) and np.isfinite(F0) else None,
+                           increase_rel=(Fret - F0) / (1 + abs(F0)) if np.isfinite(Fret) and np.isfinite(F0) else None))
     # ------------------------------------------------------------------ (ii) accepted extrapolations
     for i, (k, p) in enumerate(seq_all):
         if k != "extrap":
@@ -268,7 +280,8 @@ def run_case(emit, cid, cs, rng, sample=False):
         if not R.leq(Fe, pf, rel=rel):
             viols.append(_viol(case, "objective-increases-with-budget", "boundary chain: F %r -> %r at budget %d" % (
                 pf, Fe, e), infeasible=bool(Fe == np.inf), boundary=True, at_epoch=int(e) - 1,
-                increase=(Fe - pf) if np.isfinite(Fe) and np.isfinite(pf) else None))
+                increase=(Fe - pf) if np.isfinite(Fe) and np.isfinite(pf) else None,
+                increase_rel=(Fe - pf) / (1 + abs(pf)) if np.isfinite(Fe) and np.isfinite(pf) else None))
         pf = Fe
     rec = dict(base, nontrivial=bool(len(stops) >= 3 and changed), count=counts,
                hist={"accepted_extrapolations": counts["extrap_accepted"], "warm": cs["warm"],
